@@ -23,7 +23,7 @@ V = "nostr_relay.validators."
 VALIDATORS = [V + "is_not_too_large", V + "is_signed", V + "is_recent", V + "is_certain_kind", V + "is_author_whitelisted",
               V + "is_author_blacklisted", V + "is_pow", V + "is_not_hellthread", V + "is_service_event",
               "nostr_relay.dynamic_lists.is_pubkey_allowed"]
-CFG = dict(max_event_size=50, oldest_event=1000, valid_kinds=[1, 7, 31494, 3], pubkey_whitelist=[PK["A"], PK["S"], PK["K1"]],
+CFG = dict(max_event_size=50, oldest_event=1000, valid_kinds=[1, 7, 31494, 3, 20001, 10002, 30000, 5], pubkey_whitelist=[PK["A"], PK["S"], PK["K1"]],
            pubkey_blacklist=[PK["B"]], require_pow=8, hellthread_limit=3)
 ALLOWED = [PK["A"], PK["S"], PK["K1"], PK["K2"]]
 DENIED = [PK["C"]]
@@ -95,6 +95,18 @@ def events():
     add("ptags_4_plus_e_k1", ground("A", tags=p(3) + [["e", "x"], ["P", "y"]]))
     add("service_by_service", ground("S", kind=31494, tags=[["d", "x"]]))
     add("service_by_A", ground("A", kind=31494, tags=[["d", "x"]]), is_service_event=False)
+    # the kinds that take their own paths through the storage code (ephemeral: never written on LMDB; replaceable; parameterized;
+    # deletion) are subject to the same pipeline
+    for kn, k, tg in (("eph", 20001, []), ("repl", 10002, []), ("param", 30000, [["d", "x"]]), ("del", 5, [["e", "ab" * 32]])):
+        add("%s_good" % kn, ground("A", kind=k, tags=tg))
+        add("%s_size_max_p1" % kn, ground("A", kind=k, tags=tg, content_len=51), is_not_too_large=False)
+        add("%s_age_oldest_p1" % kn, ground("A", kind=k, tags=tg, created_at=NOW - 1001), is_recent=False)
+        add("%s_author_B" % kn, ground("B", kind=k, tags=tg), is_author_whitelisted=False, is_author_blacklisted=False, is_pubkey_allowed=False)
+        add("%s_pow_7" % kn, ground("A", kind=k, tags=tg, bits=7, exact=True), is_pow=False)
+        b2 = dict(ground("A", kind=k, tags=tg, created_at=NOW - 11))
+        b2["sig"] = b2["sig"][:-2] + ("00" if b2["sig"][-2:] != "00" else "01")
+        add("%s_bad_signature" % kn, b2, is_signed=False)
+    add("eph_kind_out", ground("A", kind=20002), is_certain_kind=False)
     bad = dict(ground("A"))
     bad["sig"] = bad["sig"][:-2] + ("00" if bad["sig"][-2:] != "00" else "01")
     add("bad_signature", bad, is_signed=False)
@@ -164,7 +176,8 @@ def submit_and_judge(sess, backend, pipeline, name, e, expect, viol, cid, sig):
     admitted = bool(oks) and oks[0][2] is True
     stored = e.get("id") in store.decode_store(backend, post)
     pushed = [p.get("id") for p in r["pushed"]]
-    if expect is True and not (admitted and stored):
+    eph = isinstance(e.get("kind"), int) and 20000 <= e["kind"] < 30000
+    if expect is True and not (admitted and (stored or (eph and e.get("id") in pushed))):  # an ephemeral event is broadcast, not necessarily stored
         viol.append({"case": cid, "clause": "admitted-when-all-bounds-hold", "sig": sig,
                      "detail": "%s passes every validator of %s but was refused: %r" % (name, [short(v) for v in pipeline], oks[:1])})
     if expect is False:
@@ -497,8 +510,9 @@ def coverage(tier, agg):
         "rule": "pipe: %d ordered pipelines of <= 3 of the 10 validators (all 1- and 2-validator pipelines; %s 3-validator ones) x %d boundary events "
                 "(size 49/50/51 of max 50, age 999/1000/1001 of 1000 s, future 3599/3600/3601 s, kinds in/out, whitelisted / blacklisted / denied / "
                 "unlisted authors, PoW 0/7/8/9 bits of 8 required, 2/3/4 p tags for kinds 1/7/3 with limit 3, service kind by service / other key, bad "
-                "signature), each PoW-ground to pass the remaining validators; pow: all 257 leading-zero-bit counts x thresholds {0,1,8,9,255,256}; "
-                "missing: configured validator with absent parameter; lists: ListBuilder.run_once over all <= 3-subsets of 8 p-tag shapes x static "
+                "signature; too large / too old / blacklisted / low-PoW / badly signed events of an ephemeral, a replaceable, a parameterized and a deletion kind), each PoW-ground to pass the remaining validators; pow: all 257 leading-zero-bit counts x thresholds {0,1,8,9,255,256}; "
+                "missing: configured validator with absent parameter (kinds, whitelist, blacklist, PoW, service key); lists: decision table of is_pubkey_allowed over enforced / "
+                "unenforced allow and deny lists; ListBuilder.run_once over all <= 3-subsets of 8 p-tag shapes x static "
                 "keys on/off with a stale entry present; race: every interleaving of the real run_once and is_pubkey_allowed at line%s granularity "
                 "with <= 2 preemptions for an outsider (judged) and an insider (reported)." % (
                     len(pipelines(tier)), "all" if tier == "thorough" else "every 9th of the", len(events()), " and opcode" if tier == "thorough" else ""),
